@@ -30,9 +30,12 @@ Silent(p) ==
   \/ (p = "disable" /\ ~opened /\ CloseCheck(p)) \/ CloseRelease(p) \/ CloseUnlock(p)
   \/ EnableCheck(p) \/ EnableOpen(p)
   \/ SnapDone(p)
+  \/ CompCheck(p) \/ CompDone(p)
 SilentStep == /\ l <= Len(Log) /\ cur.kind # "reset"
               /\ \E p \in Procs : Silent(p) /\ hz' = hz \cup (IF pc[p] = "s_lock" /\ ~opened THEN {"Z1"} ELSE {})
                                  /\ (pc[p] \in {"s_init", "s_chk_reacq", "s_unlock"} \/ UNCHANGED rtxBy)
+                                 /\ (p = "compact" \/ UNCHANGED inComp)
+                                 /\ (pc[p] \in {"s_init", "e_open"} \/ UNCHANGED raced)
               /\ UNCHANGED l
 
 Hooked(p, h) ==
@@ -50,10 +53,11 @@ Consume ==
   /\ l <= Len(Log) /\ l' = l + 1
   /\ CASE cur.kind = "reset" -> /\ pc' = [p \in Procs |-> "start"] /\ execSem' = "free" /\ chkR' = 0 /\ chkW' = FALSE
                                 /\ opened' = TRUE /\ inited' = TRUE /\ rtx' = TRUE /\ streaming' = FALSE /\ done' = {}
-                                /\ hz' = {} /\ rtxBy' = "boot"
+                                /\ hz' = {} /\ rtxBy' = "boot" /\ inComp' = FALSE /\ raced' = FALSE
        [] cur.kind = "at"    -> /\ cur.p \in Procs /\ Hooked(cur.p, cur.hook)
                                 /\ hz' = hz \cup (IF pc[cur.p] = "s_lock" /\ ~opened THEN {"Z1"} ELSE {})
                                 /\ (pc[cur.p] \in {"s_init", "s_chk_reacq", "s_unlock"} \/ UNCHANGED rtxBy)
+                                /\ UNCHANGED <<inComp, raced>>
                                 /\ (cur.bind => opened' = cur.open)
        [] cur.kind = "done"  -> /\ cur.p \in Procs /\ pc[cur.p] = "end" /\ (cur.bind => opened = cur.open) /\ UNCHANGED vars
        [] OTHER              -> UNCHANGED vars
